@@ -15,6 +15,14 @@ struct rec_handler {
     void operator()(booster::system::error_code const &e) const { g_calls++; g_err = e.value(); }
 };
 static unsigned char g_keys[4][8], g_vals[4][8]; static unsigned g_kn[4], g_vn[4], g_pairs;
+#ifdef VERIF_NATIVE
+#define NATIVE_PAIRS(conn, K0, KL0) do { g_pairs = 0; for (cppcms::impl::string_map::iterator it = (conn)->env_.begin(); it != (conn)->env_.end(); ++it) g_pairs++; \
+    std::string k0((char const *)(K0), (KL0)); char const *v0 = (conn)->env_.get(k0.c_str()); char const *v1 = (conn)->env_.get("x"); \
+    g_kn[0] = (KL0); for (unsigned i = 0; i < (KL0); i++) g_keys[0][i] = (K0)[i]; g_vn[0] = v0 ? strlen(v0) : 99; for (unsigned i = 0; v0 && i < g_vn[0] && i < 8; i++) g_vals[0][i] = v0[i]; \
+    g_kn[1] = 1; g_keys[1][0] = 'x'; g_vn[1] = v1 ? strlen(v1) : 99; if (v1 && g_vn[1]) g_vals[1][0] = v1[0]; } while (0)
+#else
+#define NATIVE_PAIRS(conn, K0, KL0) do { } while (0)
+#endif
 static unsigned cstrlen_bounded(const unsigned char *p) { unsigned n = 0; while (n < 24 && p[n]) n++; return n; }
 extern "C" __attribute__((noinline)) void verif_env_add(unsigned char *k, unsigned char *v)
 {
@@ -32,6 +40,9 @@ static scgi *raw_scgi(unsigned n)
     scgi *s = (scgi *)(void *)raw;
     new (&s->buffer_) std::vector<char>(n);
     new (&s->pool_) cppcms::impl::string_pool(48);
+#ifdef VERIF_NATIVE
+    new (&s->env_) cppcms::impl::string_map();   // the native build runs the real string_map::add
+#endif
     return s;
 }
 
@@ -79,6 +90,7 @@ extern "C" void h_c01e_scgi_pairs()
     g_calls = 0; g_pairs = 0;
     cppcms::impl::cgi::handler h = rec_handler();
     s->on_headers_chunk_read(booster::system::error_code(), 0, h);
+    NATIVE_PAIRS(s, k, kl);
     CHECKM(g_calls == 1 && g_err == 0, "well-formed header block not accepted");
     CHECKM(g_pairs == 2, "number of delivered pairs differs from the encoded one");
     CHECKM(g_kn[0] == kl && g_vn[0] == vl, "first pair lengths differ");
